@@ -47,6 +47,8 @@ def wd(y, m, d):
 def notations():
     N = []
     N.append(("rfc3339", "num", 9, lambda t: "%04d-%02d-%02dT%02d:%02d:%02d%s%s" % (t["y"], t["m"], t["d"], t["H"], t["M"], t["S"], frac_s(t["n"], t["fd"]), offs(t["off"], True))))
+    N.append(("rfc3339_blank", "num", 9, lambda t: "%04d-%02d-%02dT%02d:%02d:%02d%s %s" % (t["y"], t["m"], t["d"], t["H"], t["M"], t["S"], frac_s(t["n"], t["fd"]), offs(t["off"], True))))
+    N.append(("rfc3339_space_colon", "num", 9, lambda t: "%04d-%02d-%02d %02d:%02d:%02d%s %s" % (t["y"], t["m"], t["d"], t["H"], t["M"], t["S"], frac_s(t["n"], t["fd"]), offs(t["off"], True))))
     N.append(("rfc3339_Z", "utc", 9, lambda t: "%04d-%02d-%02dT%02d:%02d:%02d%sZ" % (t["y"], t["m"], t["d"], t["H"], t["M"], t["S"], frac_s(t["n"], t["fd"]))))
     N.append(("rfc3339_space", "num", 6, lambda t: "%04d-%02d-%02d %02d:%02d:%02d%s %s" % (t["y"], t["m"], t["d"], t["H"], t["M"], t["S"], frac_s(t["n"], t["fd"]), offs(t["off"], False))))
     N.append(("comma_ms", "num", 3, lambda t: "%04d-%02d-%02d %02d:%02d:%02d,%s %s" % (t["y"], t["m"], t["d"], t["H"], t["M"], t["S"], ("%09d" % t["n"])[:3], offs(t["off"], True))))
